@@ -1939,3 +1939,11 @@ def _(E, c):
     if is_sym(n):
         raise Inconclusive('repeat_n(symbolic)')
     return iter_obj(ListIter([c.args[0]] * n))
+
+
+@model('vec::from_elem', 'from_elem')
+def _(E, c):
+    n = E.deref(c.args[1]).v
+    if is_sym(n):
+        raise Inconclusive('vec![x; symbolic]')
+    return VecV([c.args[0]] * n, c.dest_ty)
